@@ -19,10 +19,13 @@ pub trait Ent: Ring + Enc where for<'x> &'x Self: RingOps<Self> {
     fn rnd_unit(rng: &mut StdRng) -> Self;
     fn of_int(x: i64) -> Self;
 }
+/// Properties whose contracts multiply entries many times (Gram determinants) encode i64 entries as exact integers ("Z") instead of TLC integers ("I").
+pub static I64_AS_Z: std::sync::atomic::AtomicBool = std::sync::atomic::AtomicBool::new(false);
+fn i64_as_z() -> bool { I64_AS_Z.load(std::sync::atomic::Ordering::Relaxed) }
 impl Ent for i64 {
-    fn ring() -> Value { json!({"k":"I"}) }
+    fn ring() -> Value { if i64_as_z() { json!({"k":"Z"}) } else { json!({"k":"I"}) } }
     fn tname() -> String { "i64".into() }
-    fn ent(&self) -> Value { json!(*self) }
+    fn ent(&self) -> Value { if i64_as_z() { self.enc() } else { json!(*self) } }
     fn rnd(rng: &mut StdRng, mag: i64) -> Self { rng.gen_range(-mag..=mag) }
     fn rnd_unit(rng: &mut StdRng) -> Self { if rng.gen_bool(0.5) { 1 } else { -1 } }
     fn of_int(x: i64) -> Self { x }
